@@ -76,8 +76,9 @@ CLAIMS = {
              'no other source of that stream started. One sender iteration writes exactly that frame and resolves exactly its sent_future.',
         note=TRUST + 'L-QUEUE (legality at every emission => per-stream order and fragment contiguity of the wire log) is a meta-level '
              'induction over emissions. asyncio.Queue/QueuePeekable.peek and get_next_fragment are used through contracts (peek verified; '
-             'get_next_fragment under C03). Bounded stand-ins, not counted as proved: send_priority_frame (queue length <= 5), '
-             'contains_after_head (<= 4), and the bounded instances of the emission step that supply concrete counter-models.',
+             'get_next_fragment under C03; contains_after_head proved for every queue content, with any()/list slicing modelled as a '
+             'quantifier over a symbolic sequence). Bounded stand-ins, not counted as proved: send_priority_frame (queue length <= 5), '
+             'instances of contains_after_head (<= 4, cross-check of that model) and of the emission step (concrete counter-models).',
         technique='contract-based deductive verification: quantified queue invariant + ghost sequence numbers over a symbolic FIFO, z3',
         design='5/C05'),
     'C07': dict(
